@@ -757,7 +757,37 @@ func (c *Ctx) FBin(op Op, x, y *Term) *Term {
 	case OpFLt, OpFLe, OpFEq:
 		rs = SBool
 	}
+	// distribute over ite trees whose leaves are constants: keeps grid-valued floats propositional
+	nx, ny := constLeaves(x, 512), constLeaves(y, 512)
+	if nx > 0 && ny > 0 && nx*ny <= 16384 {
+		if x.op == OpIte {
+			return c.Ite(x.args[0], c.FBin(op, x.args[1], y), c.FBin(op, x.args[2], y))
+		}
+		if y.op == OpIte {
+			return c.Ite(y.args[0], c.FBin(op, x, y.args[1]), c.FBin(op, x, y.args[2]))
+		}
+	}
 	return c.mk(op, rs, 0, 0, 0, "", x, y)
+}
+
+// constLeaves returns the number of leaves of an ite tree whose leaves are all constants
+// (1 for a constant), or -1 when some leaf is not constant or there are more than limit leaves.
+func constLeaves(t *Term, limit int) int {
+	if t.IsConst() {
+		return 1
+	}
+	if t.op != OpIte || limit < 2 {
+		return -1
+	}
+	a := constLeaves(t.args[1], limit-1)
+	if a < 0 {
+		return -1
+	}
+	b := constLeaves(t.args[2], limit-a)
+	if b < 0 {
+		return -1
+	}
+	return a + b
 }
 
 func (c *Ctx) FNeg(x *Term) *Term {
